@@ -514,6 +514,10 @@ func (s *c06Scenario) body(c *mc.Ctx) {
 	if r := res[s.n-1]; r == nil || r.Result != result.ResultNonRevokable {
 		c.Fail("C06 root not NonRevokable", "root result %+v", r)
 	}
+	// whatever the answers were: every response body the check was handed has been closed when it returns
+	if n := tr.OpenBodies(); n != 0 {
+		c.Fail("C06 response bodies left open", "%d response body(ies) not closed when the check returned (an open body keeps its connection and goroutines)", n)
+	}
 	c.State(strings.Join(state, " "))
 }
 
